@@ -37,12 +37,14 @@ def sh(cmd, **kw):
 _built = {}
 
 
-def build_harness(features=("likelysubtags", "serde", "macros")):
+def build_harness(features=("likelysubtags", "serde", "macros"), profile="release"):
     """cargo build of the harness against the current /repo tree; returns the binary path.
-    Each feature set gets its own target directory so that switching is incremental."""
+    Each feature set gets its own target directory so that switching is incremental.
+    profile "dev" is an unoptimised build: no tail-call elimination or inlining, so recursion depth is what the source says."""
     key = ",".join(sorted(features))
-    if key in _built:
-        return _built[key]
+    ck = key + "|" + profile
+    if ck in _built:
+        return _built[ck]
     tdir = os.path.join(WORK, "target" if key == "likelysubtags,macros,serde" else "target-" + (key.replace(",", "_") or "none"))
     env = dict(os.environ)
     env["CARGO_TARGET_DIR"] = tdir
@@ -50,16 +52,16 @@ def build_harness(features=("likelysubtags", "serde", "macros")):
     lock = os.path.join(HARNESS, "Cargo.lock")
     if not os.path.exists(lock):
         shutil.copy(os.path.join(REPO, "Cargo.lock"), lock)
-    cmd = ["cargo", "build", "--release", "--offline", "--no-default-features"]
+    cmd = ["cargo", "build", "--offline", "--no-default-features"] + (["--release"] if profile == "release" else [])
     if features:
         cmd += ["--features", key]
     t0 = time.time()
     p = subprocess.run(cmd, cwd=HARNESS, env=env, stdout=subprocess.PIPE, stderr=subprocess.STDOUT, text=True)
     if p.returncode != 0:
-        raise ToolError("harness build failed (features=%s):\n%s" % (key, p.stdout[-4000:]))
-    binp = os.path.join(tdir, "release", "ulverif")
-    log("[build] harness features=[%s] %.1fs" % (key, time.time() - t0))
-    _built[key] = binp
+        raise ToolError("harness build failed (features=%s, profile=%s):\n%s" % (key, profile, p.stdout[-4000:]))
+    binp = os.path.join(tdir, "release" if profile == "release" else "debug", "ulverif")
+    log("[build] harness features=[%s] profile=%s %.1fs" % (key, profile, time.time() - t0))
+    _built[ck] = binp
     return binp
 
 
